@@ -1879,12 +1879,15 @@ impl<'a> CompositionGraphEncoder<'a> {
                     .aggregate(name, self.0.types(), node.item_kind, &mut checker)
                     .map_err(|e| EncodeError::ImportTypeMergeConflict {
                         import: name.clone(),
+                        // The earliest such instantiation (the map's order is arbitrary)
                         first: instantiations
                             .iter()
-                            .find(|(implicit, _)| {
+                            .filter(|(implicit, _)| {
                                 wac_types::are_semver_compatible(implicit, name)
                             })
-                            .map(|(_, index)| NodeId(*index))
+                            .map(|(_, index)| *index)
+                            .min()
+                            .map(NodeId)
                             .unwrap_or(NodeId(n)),
                         second: NodeId(n),
                         source: e,
